@@ -122,4 +122,434 @@ theorem baLagrangian_eq (β : ℝ) (p q : List ℝ) (W d : List (List ℝ)) (n m
   rw [getD_zip _ q 0 0 y (by rw [hW.row_len hx']; exact hy') (by omega), guard2]
   rfl
 
+/-! ### The finitary core: the row minimiser -/
+
+section Core
+variable {κ : Type}
+
+theorem row_term (w q Z dd β : ℝ) (hZ : 0 < Z) (hdom : q = 0 → w = 0) :
+    w * Real.logb 2 (w / (q * (2 : ℝ) ^ (-(β * dd)) / Z))
+      = w * (Real.logb 2 (w / q) + β * dd) + w * Real.logb 2 Z := by
+  by_cases h1 : w = 0
+  · simp [h1]
+  have hq' : q ≠ 0 := fun h => h1 (hdom h)
+  have h2 := two_rpow_pos (-(β * dd))
+  rw [Real.logb_div h1 (div_ne_zero (mul_ne_zero hq' h2.ne') hZ.ne'),
+    Real.logb_div (mul_ne_zero hq' h2.ne') hZ.ne', Real.logb_mul hq' h2.ne',
+    Real.logb_rpow (by norm_num) (by norm_num), Real.logb_div h1 hq']
+  ring
+
+/-- For a probability vector `w` dominated by `q ≥ 0`:
+`Σ_y w_y (log₂ (w_y/q_y) + β d_y) ≥ −log₂ Σ_y q_y 2^{−β d_y}` (Gibbs against `q_y 2^{−βd_y}/Z`). -/
+theorem row_lower (t : Finset κ) (w q dd : κ → ℝ) (β : ℝ) (hw : ∀ y ∈ t, 0 ≤ w y)
+    (hws : ∑ y ∈ t, w y = 1) (hq : ∀ y ∈ t, 0 ≤ q y)
+    (hZ : 0 < ∑ y ∈ t, q y * (2 : ℝ) ^ (-(β * dd y)))
+    (hdom : ∀ y ∈ t, q y = 0 → w y = 0) :
+    -Real.logb 2 (∑ y ∈ t, q y * (2 : ℝ) ^ (-(β * dd y)))
+      ≤ ∑ y ∈ t, w y * (Real.logb 2 (w y / q y) + β * dd y) := by
+  set Z := ∑ y ∈ t, q y * (2 : ℝ) ^ (-(β * dd y)) with hZdef
+  have hg := Lemmas.InfoReal.gibbs t w (fun y => q y * (2 : ℝ) ^ (-(β * dd y)) / Z) hw
+    (fun y hy => div_nonneg (mul_nonneg (hq y hy) (two_rpow_pos _).le) hZ.le)
+    (by rw [← sum_div, div_self hZ.ne', hws])
+    (fun y hy h0 => hdom y hy (by
+      rcases div_eq_zero_iff.mp h0 with h | h
+      · rcases mul_eq_zero.mp h with h | h
+        · exact h
+        · exact absurd h (two_rpow_pos _).ne'
+      · exact absurd h hZ.ne'))
+  rw [sum_congr rfl (fun y hy => row_term (w y) (q y) Z (dd y) β hZ (hdom y hy)),
+    sum_add_distrib, ← sum_mul, hws, one_mul] at hg
+  linarith
+
+/-- The minimiser `w_y = q_y 2^{−β d_y}/Z` attains `−log₂ Z`. -/
+theorem row_min (t : Finset κ) (q dd : κ → ℝ) (β : ℝ)
+    (hZ : 0 < ∑ y ∈ t, q y * (2 : ℝ) ^ (-(β * dd y))) :
+    ∑ y ∈ t, (q y * (2 : ℝ) ^ (-(β * dd y)) / ∑ y ∈ t, q y * (2 : ℝ) ^ (-(β * dd y)))
+        * (Real.logb 2 ((q y * (2 : ℝ) ^ (-(β * dd y)) / ∑ y ∈ t, q y * (2 : ℝ) ^ (-(β * dd y)))
+            / q y) + β * dd y)
+      = -Real.logb 2 (∑ y ∈ t, q y * (2 : ℝ) ^ (-(β * dd y))) := by
+  set Z := ∑ y ∈ t, q y * (2 : ℝ) ^ (-(β * dd y)) with hZdef
+  have h : ∀ y ∈ t, (q y * (2 : ℝ) ^ (-(β * dd y)) / Z)
+        * (Real.logb 2 ((q y * (2 : ℝ) ^ (-(β * dd y)) / Z) / q y) + β * dd y)
+      = -((q y * (2 : ℝ) ^ (-(β * dd y)) / Z) * Real.logb 2 Z) := by
+    intro y _
+    have := row_term (q y * (2 : ℝ) ^ (-(β * dd y)) / Z) (q y) Z (dd y) β hZ
+      (by intro h0; simp [h0])
+    have e : (q y * (2 : ℝ) ^ (-(β * dd y)) / Z) *
+        Real.logb 2 ((q y * (2 : ℝ) ^ (-(β * dd y)) / Z) / (q y * (2 : ℝ) ^ (-(β * dd y)) / Z))
+        = 0 := by
+      by_cases h0 : q y * (2 : ℝ) ^ (-(β * dd y)) / Z = 0
+      · rw [h0]; simp
+      · rw [div_self h0]; simp
+    rw [e] at this
+    linarith
+  rw [sum_congr rfl h, sum_neg_distrib, ← sum_mul, ← sum_div, div_self hZ.ne', one_mul]
+
+end Core
+
+/-! ### Every iterate is a channel -/
+
+theorem baZ_pos (β : ℝ) (q : List ℝ) (d : List (List ℝ)) (m x : ℕ) (hq : IsLaw q m) :
+    0 < baZ β q d m x :=
+  weighted_pos m (vec q) _ (fun y _ => hq.vec_nonneg y) hq.sum_vec (fun _ _ => two_rpow_pos _)
+
+/-- The general form: non-negative weights `q` with positive normalisers. -/
+theorem baNextW_isChannel_of_pos (β : ℝ) (q : List ℝ) (d : List (List ℝ)) (n m : ℕ)
+    (hq : q.length = m) (hqnn : ∀ y < m, 0 ≤ vec q y) (hd : IsMat d n m)
+    (hZ : ∀ x < n, 0 < baZ β q d m x) :
+    IsChannel (baNextW (fun x => (2 : ℝ) ^ x) β q d) n m := by
+  apply isChannel_of_ent _ n m (baNextW_isMat β q d n m hq hd)
+  · intro x hx y hy
+    rw [ent_baNextW β q d n m hq hd x y hx hy]
+    exact div_nonneg (mul_nonneg (hqnn y hy) (two_rpow_pos _).le) (hZ x hx).le
+  · intro x hx
+    rw [sum_congr rfl (fun y hy => ent_baNextW β q d n m hq hd x y hx (mem_range.mp hy)),
+      ← sum_div]
+    exact div_self (hZ x hx).ne'
+
+theorem baNextW_isChannel (β : ℝ) (q : List ℝ) (d : List (List ℝ)) (n m : ℕ) (hq : IsLaw q m)
+    (hd : IsMat d n m) : IsChannel (baNextW (fun x => (2 : ℝ) ^ x) β q d) n m :=
+  baNextW_isChannel_of_pos β q d n m hq.len (fun y _ => hq.vec_nonneg y) hd
+    (fun x _ => baZ_pos β q d m x hq)
+
+theorem baStep_fst (e : ℝ → ℝ) (β : ℝ) (p : List ℝ) (distFn : List (List ℝ) → List (List ℝ))
+    (W : List (List ℝ)) :
+    (baStep e β p distFn W).1 = baNextW e β (outputLaw p W) (distFn W) := rfl
+
+theorem baStep_snd (e : ℝ → ℝ) (β : ℝ) (p : List ℝ) (distFn : List (List ℝ) → List (List ℝ))
+    (W : List (List ℝ)) :
+    (baStep e β p distFn W).2
+      = baAvDist p (baStep e β p distFn W).1 (distFn (baStep e β p distFn W).1) := rfl
+
+theorem baStep_isChannel (β : ℝ) (p : List ℝ) (distFn : List (List ℝ) → List (List ℝ))
+    (W : List (List ℝ)) (n m : ℕ) (hp : IsLaw p n) (hW : IsChannel W n m)
+    (hdist : IsMat (distFn W) n m) :
+    IsChannel (baStep (fun x => (2 : ℝ) ^ x) β p distFn W).1 n m :=
+  baNextW_isChannel β _ _ n m (outputLaw_isLaw p W n m hp hW) hdist
+
+/-- The `k`-th iterate of the step map. -/
+noncomputable def baIter (β : ℝ) (p : List ℝ) (distFn : List (List ℝ) → List (List ℝ)) (k : ℕ)
+    (W : List (List ℝ)) : List (List ℝ) :=
+  (fun V => (baStep (fun x => (2 : ℝ) ^ x) β p distFn V).1)^[k] W
+
+theorem baIter_zero (β : ℝ) (p : List ℝ) (distFn : List (List ℝ) → List (List ℝ))
+    (W : List (List ℝ)) : baIter β p distFn 0 W = W := rfl
+
+theorem baIter_succ (β : ℝ) (p : List ℝ) (distFn : List (List ℝ) → List (List ℝ)) (k : ℕ)
+    (W : List (List ℝ)) :
+    baIter β p distFn (k + 1) W
+      = baIter β p distFn k (baStep (fun x => (2 : ℝ) ^ x) β p distFn W).1 :=
+  Function.iterate_succ_apply _ _ _
+
+theorem baIter_succ' (β : ℝ) (p : List ℝ) (distFn : List (List ℝ) → List (List ℝ)) (k : ℕ)
+    (W : List (List ℝ)) :
+    baIter β p distFn (k + 1) W
+      = (baStep (fun x => (2 : ℝ) ^ x) β p distFn (baIter β p distFn k W)).1 :=
+  Function.iterate_succ_apply' _ _ _
+
+theorem baIter_isChannel (β : ℝ) (p : List ℝ) (distFn : List (List ℝ) → List (List ℝ))
+    (n m : ℕ) (hp : IsLaw p n) (hdist : ∀ V, IsChannel V n m → IsMat (distFn V) n m) (k : ℕ)
+    (W : List (List ℝ)) (hW : IsChannel W n m) : IsChannel (baIter β p distFn k W) n m := by
+  induction k with
+  | zero => exact hW
+  | succ k ih =>
+    rw [baIter_succ']
+    exact baStep_isChannel β p distFn _ n m hp ih (hdist _ ih)
+
+/-- What the loop returns: some iterate `k ≤ fuel`, its own distortion value, `it + k`. -/
+theorem baLoop_spec (β : ℝ) (p : List ℝ) (distFn : List (List ℝ) → List (List ℝ))
+    (close : ℝ → ℝ → Bool) (fuel : ℕ) (W : List (List ℝ)) (prev dv : ℝ) (it : ℕ)
+    (hdv : dv = baAvDist p W (distFn W)) :
+    ∃ k, k ≤ fuel ∧ baLoop (fun x => (2 : ℝ) ^ x) β p distFn close fuel W prev dv it
+      = (baIter β p distFn k W,
+          baAvDist p (baIter β p distFn k W) (distFn (baIter β p distFn k W)), it + k) := by
+  induction fuel generalizing W prev dv it with
+  | zero => exact ⟨0, le_refl _, by simp [baLoop, baIter_zero, hdv]⟩
+  | succ fuel ih =>
+    by_cases hc : close prev dv = true
+    · exact ⟨0, Nat.zero_le _, by rw [baLoop, if_pos hc, baIter_zero, hdv]; rfl⟩
+    · obtain ⟨k, hk, he⟩ := ih (baStep (fun x => (2 : ℝ) ^ x) β p distFn W).1 dv
+        (baStep (fun x => (2 : ℝ) ^ x) β p distFn W).2 (it + 1) (baStep_snd _ _ _ _ _)
+      refine ⟨k + 1, by omega, ?_⟩
+      rw [baIter_succ]
+      rw [baLoop, if_neg hc]
+      simp only
+      rw [he]
+      simp [Nat.add_assoc, Nat.add_comm 1 k]
+
+theorem baRun_spec (β : ℝ) (p : List ℝ) (distFn : List (List ℝ) → List (List ℝ))
+    (close : ℝ → ℝ → Bool) (maxIters : ℕ) (W0 : List (List ℝ)) :
+    ∃ k, k ≤ maxIters ∧ baRun (fun x => (2 : ℝ) ^ x) β p distFn close maxIters W0
+      = (baIter β p distFn k W0,
+          baAvDist p (baIter β p distFn k W0) (distFn (baIter β p distFn k W0)), k) := by
+  obtain ⟨k, hk, he⟩ := baLoop_spec β p distFn close maxIters W0 0
+    (baAvDist p W0 (distFn W0)) 0 rfl
+  exact ⟨k, hk, by rw [baRun, he, Nat.zero_add]⟩
+
+theorem baIterates_mem (β : ℝ) (p : List ℝ) (distFn : List (List ℝ) → List (List ℝ)) (k : ℕ)
+    (W : List (List ℝ)) (e : List (List ℝ) × ℝ)
+    (he : e ∈ baIterates (fun x => (2 : ℝ) ^ x) β p distFn k W) :
+    ∃ j, j ≤ k ∧ e = (baIter β p distFn j W,
+      baAvDist p (baIter β p distFn j W) (distFn (baIter β p distFn j W))) := by
+  induction k generalizing W with
+  | zero =>
+    simp only [baIterates, List.mem_singleton] at he
+    exact ⟨0, le_refl _, he⟩
+  | succ k ih =>
+    simp only [baIterates, List.mem_cons] at he
+    rcases he with he | he
+    · exact ⟨0, Nat.zero_le _, he⟩
+    · obtain ⟨j, hj, hej⟩ := ih _ he
+      exact ⟨j + 1, by omega, by rw [baIter_succ]; exact hej⟩
+
+theorem baIterates_length (e2 : ℝ → ℝ) (β : ℝ) (p : List ℝ)
+    (distFn : List (List ℝ) → List (List ℝ)) (k : ℕ) (W : List (List ℝ)) :
+    (baIterates e2 β p distFn k W).length = k + 1 := by
+  induction k generalizing W with
+  | zero => rfl
+  | succ k ih => simp [baIterates, ih]
+
+
+/-! ### Descent for a fixed distortion matrix -/
+
+/-- The objective `F(W) = I(p;W) + β·E[d]`. -/
+noncomputable def baF (β : ℝ) (p : List ℝ) (W d : List (List ℝ)) : ℝ :=
+  channelMI (Real.logb 2) p W + β * baAvDist p W d
+
+theorem lagrangian_split (β : ℝ) (p q : List ℝ) (W d : List (List ℝ)) (n m : ℕ)
+    (hp : p.length = n) (hq : q.length = m) (hW : IsMat W n m) (hd : IsMat d n m) :
+    baLagrangian (Real.logb 2) β p W d q
+      = ∑ x ∈ range n, vec p x * ∑ y ∈ range m, ent W x y * Real.logb 2 (ent W x y / vec q y)
+        + β * baAvDist p W d := by
+  rw [baLagrangian_eq β p q W d n m hp hq hW hd, baAvDist_eq p W d n m hp hW hd, mul_sum,
+    ← sum_add_distrib]
+  apply sum_congr rfl
+  intro x _
+  have : ∑ y ∈ range m, ent W x y * (Real.logb 2 (ent W x y / vec q y) + β * ent d x y)
+      = ∑ y ∈ range m, ent W x y * Real.logb 2 (ent W x y / vec q y)
+        + β * ∑ y ∈ range m, ent W x y * ent d x y := by
+    rw [mul_sum, ← sum_add_distrib]
+    exact sum_congr rfl (fun _ _ => by ring)
+  rw [this]; ring
+
+/-- `L(W, pW) = I(p;W) + β·E[d]`. -/
+theorem baLagrangian_outputLaw (β : ℝ) (p : List ℝ) (W d : List (List ℝ)) (n m : ℕ)
+    (hp : p.length = n) (hn : 0 < n) (hW : IsMat W n m) (hd : IsMat d n m) :
+    baLagrangian (Real.logb 2) β p W d (outputLaw p W) = baF β p W d := by
+  rw [lagrangian_split β p _ W d n m hp (outputLaw_length p W n m hW hn) hW hd, baF,
+    channelMI_eq p W n m hp hW]
+
+/-- (a) The output law of `W` is the best `q` for `W`: `F(W) = L(W, pW) ≤ L(W, q)`. -/
+theorem baF_le_lagrangian (β : ℝ) (p q : List ℝ) (W d : List (List ℝ)) (n m : ℕ)
+    (hp : IsLaw p n) (hW : IsChannel W n m) (hd : IsMat d n m) (hq : IsLaw q m)
+    (hdom : ∀ x < n, vec p x ≠ 0 → ∀ y < m, vec q y = 0 → ent W x y = 0) :
+    baF β p W d ≤ baLagrangian (Real.logb 2) β p W d q := by
+  rw [lagrangian_split β p q W d n m hp.len hq.len hW.isMat hd, baF,
+    channelMI_eq p W n m hp.len hW.isMat]
+  simp only [vec_outputLaw p W n m hp.len hW.isMat]
+  have h := mi_le_cross (range n) (range m) (vec p) (ent W) (vec q)
+    (fun x _ => hp.vec_nonneg x) (fun x _ y _ => hW.ent_nonneg x y)
+    (fun y _ => hq.vec_nonneg y)
+    (by
+      rw [sum_out (range n) (range m) (vec p) (ent W)
+        (fun x hx => hW.sum_ent (mem_range.mp hx)), hp.sum_vec, hq.sum_vec])
+    (fun x hx hne y hy => hdom x (mem_range.mp hx) hne y (mem_range.mp hy))
+  linarith
+
+/-- The closed form of `L` at the minimising channel: `L(W', q) = −Σ_x p_x log₂ Z_x`. -/
+theorem lagrangian_nextW (β : ℝ) (p q : List ℝ) (d : List (List ℝ)) (n m : ℕ)
+    (hp : p.length = n) (hq : IsLaw q m) (hd : IsMat d n m) :
+    baLagrangian (Real.logb 2) β p (baNextW (fun x => (2 : ℝ) ^ x) β q d) d q
+      = -∑ x ∈ range n, vec p x * Real.logb 2 (baZ β q d m x) := by
+  rw [baLagrangian_eq β p q _ d n m hp hq.len (baNextW_isMat β q d n m hq.len hd) hd,
+    ← sum_neg_distrib]
+  apply sum_congr rfl
+  intro x hx
+  have hx' : x < n := mem_range.mp hx
+  rw [sum_congr rfl (fun y hy => by
+    rw [ent_baNextW β q d n m hq.len hd x y hx' (mem_range.mp hy)])]
+  have := row_min (range m) (vec q) (ent d x) β (baZ_pos β q d m x hq)
+  unfold baZ
+  rw [this]; ring
+
+/-- (b) `L(W, q) ≥ −Σ_x p_x log₂ Z_x` for every channel `W` (rows of positive source
+probability dominated by `q`). -/
+theorem lagrangian_ge (β : ℝ) (p q : List ℝ) (W d : List (List ℝ)) (n m : ℕ)
+    (hp : IsLaw p n) (hW : IsChannel W n m) (hd : IsMat d n m) (hq : IsLaw q m)
+    (hdom : ∀ x < n, vec p x ≠ 0 → ∀ y < m, vec q y = 0 → ent W x y = 0) :
+    -∑ x ∈ range n, vec p x * Real.logb 2 (baZ β q d m x)
+      ≤ baLagrangian (Real.logb 2) β p W d q := by
+  rw [baLagrangian_eq β p q W d n m hp.len hq.len hW.isMat hd, ← sum_neg_distrib]
+  apply sum_le_sum
+  intro x hx
+  have hx' : x < n := mem_range.mp hx
+  by_cases h0 : vec p x = 0
+  · simp [h0]
+  have h := row_lower (range m) (ent W x) (vec q) (ent d x) β
+    (fun y _ => hW.ent_nonneg x y) (hW.sum_ent hx') (fun y _ => hq.vec_nonneg y)
+    (baZ_pos β q d m x hq) (fun y hy => hdom x hx' h0 y (mem_range.mp hy))
+  have := mul_le_mul_of_nonneg_left h (hp.vec_nonneg x)
+  unfold baZ
+  linarith
+
+theorem lagrangian_nextW_le (β : ℝ) (p q : List ℝ) (W d : List (List ℝ)) (n m : ℕ)
+    (hp : IsLaw p n) (hW : IsChannel W n m) (hd : IsMat d n m) (hq : IsLaw q m)
+    (hdom : ∀ x < n, vec p x ≠ 0 → ∀ y < m, vec q y = 0 → ent W x y = 0) :
+    baLagrangian (Real.logb 2) β p (baNextW (fun x => (2 : ℝ) ^ x) β q d) d q
+      ≤ baLagrangian (Real.logb 2) β p W d q := by
+  rw [lagrangian_nextW β p q d n m hp.len hq hd]
+  exact lagrangian_ge β p q W d n m hp hW hd hq hdom
+
+/-- Rows of positive source probability are dominated by the output law. -/
+theorem outputLaw_dom (p : List ℝ) (W : List (List ℝ)) (n m : ℕ) (hp : IsLaw p n)
+    (hW : IsChannel W n m) :
+    ∀ x < n, vec p x ≠ 0 → ∀ y < m, vec (outputLaw p W) y = 0 → ent W x y = 0 := by
+  intro x hx hne y _ h0
+  rw [vec_outputLaw p W n m hp.len hW.isMat] at h0
+  have hle : vec p x * ent W x y ≤ ∑ x' ∈ range n, vec p x' * ent W x' y :=
+    single_le_sum (f := fun x' => vec p x' * ent W x' y)
+      (fun x' _ => mul_nonneg (hp.vec_nonneg x') (hW.ent_nonneg x' y)) (mem_range.mpr hx)
+  rw [h0] at hle
+  have h1 := hW.ent_nonneg x y
+  have hpos : 0 < vec p x := lt_of_le_of_ne (hp.vec_nonneg x) (Ne.symm hne)
+  by_contra hne'
+  have : 0 < vec p x * ent W x y := mul_pos hpos (lt_of_le_of_ne h1 (Ne.symm hne'))
+  linarith
+
+/-- One step never increases `R + βD` (fixed matrix). -/
+theorem baStep_descent (β : ℝ) (p : List ℝ) (W d : List (List ℝ)) (n m : ℕ) (hp : IsLaw p n)
+    (hW : IsChannel W n m) (hd : IsMat d n m) :
+    baF β p (baStep (fun x => (2 : ℝ) ^ x) β p (fun _ => d) W).1 d ≤ baF β p W d := by
+  rw [baStep_fst]
+  have hq := outputLaw_isLaw p W n m hp hW
+  have hW' := baNextW_isChannel β (outputLaw p W) d n m hq hd
+  have h1 := baF_le_lagrangian β p (outputLaw p W) _ d n m hp hW' hd hq (by
+    intro x hx _ y hy h0
+    rw [ent_baNextW β _ d n m hq.len hd x y hx hy, h0]; simp)
+  have h2 := lagrangian_nextW_le β p (outputLaw p W) W d n m hp hW hd hq
+    (outputLaw_dom p W n m hp hW)
+  rw [baLagrangian_outputLaw β p W d n m hp.len hp.pos_len hW.isMat hd] at h2
+  linarith
+
+theorem baIter_descent (β : ℝ) (p : List ℝ) (d : List (List ℝ)) (n m : ℕ) (hp : IsLaw p n)
+    (hd : IsMat d n m) (k : ℕ) (W : List (List ℝ)) (hW : IsChannel W n m) :
+    baF β p (baIter β p (fun _ => d) (k + 1) W) d ≤ baF β p (baIter β p (fun _ => d) k W) d := by
+  rw [baIter_succ']
+  exact baStep_descent β p _ d n m hp (baIter_isChannel β p _ n m hp (fun _ _ => hd) k W hW) hd
+
+theorem baIter_antitone (β : ℝ) (p : List ℝ) (d : List (List ℝ)) (n m : ℕ) (hp : IsLaw p n)
+    (hd : IsMat d n m) (W : List (List ℝ)) (hW : IsChannel W n m) (j k : ℕ) (hjk : j ≤ k) :
+    baF β p (baIter β p (fun _ => d) k W) d ≤ baF β p (baIter β p (fun _ => d) j W) d := by
+  induction k with
+  | zero =>
+    have : j = 0 := by omega
+    subst this; exact le_refl _
+  | succ k ih =>
+    rcases Nat.eq_or_lt_of_le hjk with h | h
+    · subst h; exact le_refl _
+    · exact le_trans (baIter_descent β p d n m hp hd k W hW) (ih (by omega))
+
+theorem baIterates_le_head (β : ℝ) (p : List ℝ) (d : List (List ℝ)) (n m : ℕ) (hp : IsLaw p n)
+    (hd : IsMat d n m) (k : ℕ) (W : List (List ℝ)) (hW : IsChannel W n m)
+    (e : List (List ℝ) × ℝ)
+    (he : e ∈ baIterates (fun x => (2 : ℝ) ^ x) β p (fun _ => d) k W) :
+    baF β p e.1 d ≤ baF β p W d := by
+  obtain ⟨j, _, rfl⟩ := baIterates_mem β p (fun _ => d) k W e he
+  exact baIter_antitone β p d n m hp hd W hW 0 j (Nat.zero_le _)
+
+theorem baIterates_pairwise (β : ℝ) (p : List ℝ) (d : List (List ℝ)) (n m : ℕ) (hp : IsLaw p n)
+    (hd : IsMat d n m) (k : ℕ) (W : List (List ℝ)) (hW : IsChannel W n m) :
+    List.Pairwise (fun a b : List (List ℝ) × ℝ => baF β p b.1 d ≤ baF β p a.1 d)
+      (baIterates (fun x => (2 : ℝ) ^ x) β p (fun _ => d) k W) := by
+  induction k generalizing W with
+  | zero => simp [baIterates]
+  | succ k ih =>
+    rw [baIterates, List.pairwise_cons]
+    refine ⟨?_, ih _ (baStep_isChannel β p _ W n m hp hW hd)⟩
+    intro e he
+    exact le_trans (baIterates_le_head β p d n m hp hd k _
+      (baStep_isChannel β p _ W n m hp hW hd) e he) (baStep_descent β p W d n m hp hW hd)
+
+/-! ### Fixed points and optimality -/
+
+theorem expDistortion_joint (p : List ℝ) (V d : List (List ℝ)) (n m : ℕ) (hp : p.length = n)
+    (hV : IsMat V n m) (hd : IsMat d n m) :
+    expDistortion (baJoint p V) d = baAvDist p V d := by
+  rw [baJoint_eq_jointOf, expDistortion_eq _ d n m (jointOf_isMat p V n m hp hV) hd,
+    baAvDist_eq p V d n m hp hV hd]
+  apply sum_congr rfl; intro x hx
+  rw [mul_sum]
+  apply sum_congr rfl; intro y hy
+  rw [ent_jointOf p V n m hp hV x y (mem_range.mp hx) (mem_range.mp hy)]; ring
+
+theorem jointMI_joint (p : List ℝ) (V : List (List ℝ)) (n m : ℕ) (hp : p.length = n)
+    (hV : IsChannel V n m) :
+    jointMI (Real.logb 2) (baJoint p V) = channelMI (Real.logb 2) p V :=
+  Lemmas.Channel.jointMI_eq_channelMI p V _ n m hp hV.isMat
+    (fun row hr => (hV.row row hr).sum_one) (jointOf_isMat p V n m hp hV.isMat)
+    (fun x hx y hy => ent_jointOf p V n m hp hV.isMat x y hx hy)
+
+/-- Lower bound from the multipliers `1/Z_x` of ANY output law `q` whose column constraints hold:
+every test channel has `F(V) ≥ −Σ_x p_x log₂ Z_x`. -/
+theorem baF_ge_of_constraints (β : ℝ) (p q : List ℝ) (V d : List (List ℝ)) (n m : ℕ)
+    (hp : IsLaw p n) (hV : IsChannel V n m) (hd : IsMat d n m) (hq : IsLaw q m)
+    (hc : ∀ y < m, ∑ x ∈ range n,
+      vec p x * (1 / baZ β q d m x) * (2 : ℝ) ^ (-(β * ent d x y)) ≤ 1) :
+    -∑ x ∈ range n, vec p x * Real.logb 2 (baZ β q d m x) ≤ baF β p V d := by
+  have h := rd_dual_fn p V d (baJoint p V) (fun x => 1 / baZ β q d m x) β n m hp hV hd
+    (jointOf_isMat p V n m hp.len hV.isMat)
+    (fun x hx y hy => ent_jointOf p V n m hp.len hV.isMat x y hx hy)
+    (fun x _ => one_div_pos.mpr (baZ_pos β q d m x hq)) hc
+  rw [jointMI_joint p V n m hp.len hV, expDistortion_joint p V d n m hp.len hV.isMat hd] at h
+  refine le_trans (le_of_eq ?_) h
+  rw [← sum_neg_distrib]
+  apply sum_congr rfl; intro x _
+  rw [one_div, Real.logb_inv]; ring
+
+/-- Value at a fixed point: `F(W) = −Σ_x p_x log₂ Z_x`. -/
+theorem baF_fixed (β : ℝ) (p : List ℝ) (W d : List (List ℝ)) (n m : ℕ) (hp : IsLaw p n)
+    (hW : IsChannel W n m) (hd : IsMat d n m)
+    (hfix : (baStep (fun x => (2 : ℝ) ^ x) β p (fun _ => d) W).1 = W) :
+    baF β p W d = -∑ x ∈ range n, vec p x * Real.logb 2 (baZ β (outputLaw p W) d m x) := by
+  have hfix' : baNextW (fun x => (2 : ℝ) ^ x) β (outputLaw p W) d = W := hfix
+  have h := lagrangian_nextW β p (outputLaw p W) d n m hp.len (outputLaw_isLaw p W n m hp hW) hd
+  rw [hfix', baLagrangian_outputLaw β p W d n m hp.len hp.pos_len hW.isMat hd] at h
+  exact h
+
+/-- At a fixed point the column constraint is an equality on the support of the output law. -/
+theorem fixed_constraint (β : ℝ) (p : List ℝ) (W d : List (List ℝ)) (n m : ℕ) (hp : IsLaw p n)
+    (hW : IsChannel W n m) (hd : IsMat d n m)
+    (hfix : (baStep (fun x => (2 : ℝ) ^ x) β p (fun _ => d) W).1 = W) (y : ℕ) (hy : y < m)
+    (hqy : vec (outputLaw p W) y ≠ 0) :
+    ∑ x ∈ range n, vec p x * (1 / baZ β (outputLaw p W) d m x) * (2 : ℝ) ^ (-(β * ent d x y))
+      = 1 := by
+  have hfix' : baNextW (fun x => (2 : ℝ) ^ x) β (outputLaw p W) d = W := hfix
+  have hq := outputLaw_isLaw p W n m hp hW
+  have h := vec_outputLaw p W n m hp.len hW.isMat y
+  have e : ∀ x ∈ range n, vec p x * ent W x y = vec (outputLaw p W) y *
+      (vec p x * (1 / baZ β (outputLaw p W) d m x) * (2 : ℝ) ^ (-(β * ent d x y))) := by
+    intro x hx
+    conv_lhs => rw [← hfix']
+    rw [ent_baNextW β _ d n m hq.len hd x y (mem_range.mp hx) hy]
+    ring
+  rw [sum_congr rfl e, ← mul_sum] at h
+  exact mul_left_cancel₀ hqy (by rw [mul_one]; exact h.symm)
+
+/-- **KKT**: a fixed point whose column constraints hold off the support of its output law
+minimises `R + βD` over all test channels. -/
+theorem ba_kkt_optimal (β : ℝ) (p : List ℝ) (W d : List (List ℝ)) (n m : ℕ) (hp : IsLaw p n)
+    (hW : IsChannel W n m) (hd : IsMat d n m)
+    (hfix : (baStep (fun x => (2 : ℝ) ^ x) β p (fun _ => d) W).1 = W)
+    (hkkt : ∀ y < m, vec (outputLaw p W) y = 0 → ∑ x ∈ range n,
+      vec p x * (1 / baZ β (outputLaw p W) d m x) * (2 : ℝ) ^ (-(β * ent d x y)) ≤ 1)
+    (V : List (List ℝ)) (hV : IsChannel V n m) : baF β p W d ≤ baF β p V d := by
+  rw [baF_fixed β p W d n m hp hW hd hfix]
+  apply baF_ge_of_constraints β p (outputLaw p W) V d n m hp hV hd
+    (outputLaw_isLaw p W n m hp hW)
+  intro y hy
+  by_cases h0 : vec (outputLaw p W) y = 0
+  · exact hkkt y hy h0
+  · exact le_of_eq (fixed_constraint β p W d n m hp hW hd hfix y hy h0)
+
+
 end Dit.Lemmas.BA
